@@ -101,7 +101,64 @@ def check_batch_flush(ctx, facts):
                         names = {o.what for o in isrc if o.kind == "arg"} | {b.local_name(l) for l in origins(b, nxt[0].node["args"][0], follow_all_calls=True)[1] if b.local_name(l)}
                         if "write_plan" in names or any("plan" in str(x) for x in names):
                             good = s
-            if good:
+            iter_flush = None
+            if not good:
+                # the same loop written with an iterator: `<plan iterator>.try_for_each(|w| w.block.mmap.flush())?`
+                for c_ in b.calls(re.compile(r"Iterator>?::try_for_each$")):
+                    if not (b.dominates(c_.bb, p.bb) and error_exits(b, c_)):
+                        continue
+                    clo_ = None
+                    for a_ in c_.node["args"]:
+                        al_ = op_local(b.resolve_copy(a_))
+                        d_ = b.def_rvalue(al_) if al_ is not None else None
+                        if d_ and d_[0] == "rv" and d_[1]["k"] == "agg" and d_[1].get("akind") == "closure":
+                            clo_ = facts.bodies.get(d_[1].get("name"))
+                    if clo_ is None:
+                        continue
+                    fls = clo_.calls(re.compile(r"SharedMmap::flush$"))
+                    returned = False
+                    for f_ in fls:
+                        # the flush's own result is what the closure returns
+                        cur_, hops_ = {f_.node["dest"]["l"]}, 0
+                        while hops_ < 5 and 0 not in cur_:
+                            hops_ += 1
+                            nx_ = {st_["place"]["l"] for s_, st_ in clo_.assigns() if st_["rv"]["k"] == "use" and op_local(st_["rv"]["op"]) in cur_ and not st_["place"]["p"]}
+                            if not nx_ - cur_:
+                                break
+                            cur_ |= nx_
+                        if 0 in cur_ or f_.node["dest"]["l"] == 0:
+                            returned = True
+                    isrc, ilocals, _ = origins(b, c_.node["args"][0], follow_all_calls=True)
+                    names = {o.what for o in isrc if o.kind == "arg"} | {b.local_name(l) for l in ilocals if b.local_name(l)}
+                    over_plan = "write_plan" in names or any("plan" in str(x) for x in names)
+                    if returned and over_plan:
+                        iter_flush = c_
+                        # filters on the way may drop an element only when its file was already seen: every filter closure of
+                        # the chain returns the verdict of HashSet::insert
+                        bad_filter = None
+                        for fc in b.calls(re.compile(r"Iterator>?::(filter|skip_while|take_while|skip|take|step_by|filter_map)$")):
+                            if not any(o.kind == "call" and o.site is not None and (o.site.bb, o.site.idx) == (fc.bb, fc.idx) for o in isrc):
+                                continue
+                            okf = False
+                            if callee_name(fc.node).endswith("::filter"):
+                                for a_ in fc.node["args"]:
+                                    al_ = op_local(b.resolve_copy(a_))
+                                    d_ = b.def_rvalue(al_) if al_ is not None else None
+                                    if d_ and d_[0] == "rv" and d_[1]["k"] == "agg" and d_[1].get("akind") == "closure":
+                                        fb_ = facts.bodies.get(d_[1].get("name"))
+                                        if fb_ is not None:
+                                            rsrc_, _, _ = origins(fb_, {"l": 0, "p": []})
+                                            if {o.what for o in rsrc_ if o.kind == "call"} == {"std::collections::HashSet::insert"}:
+                                                okf = True
+                            if not okf:
+                                bad_filter = fc
+                        if bad_filter is not None:
+                            ctx.violate("C10.1", fn, "flush-loop-skips-files", b.relfile, bad_filter.line, "the iterator that drives the flushes drops elements by something other than `this file was already seen`")
+                        else:
+                            ctx.ok("C10.1", fn, "the flushing iterator drops a planned write only when its file was already seen (HashSet::insert)", b.relfile, c_.line)
+            if iter_flush is not None:
+                ctx.ok("C10.1", fn, "publish is preceded by a propagated try_for_each(flush) over the write plan", b.relfile, p.line)
+            elif good:
                 ctx.ok("C10.1", fn, "publish is preceded by a propagated flush loop over the write plan", b.relfile, p.line)
             else:
                 ctx.violate("C10.1", fn, "batch-published-without-flush", b.relfile, p.line, "the batch is published (and acknowledged) without flushing every file it wrote")
